@@ -43,6 +43,14 @@ pub enum Tamper {
     SwapLR(usize),
     /// negate L_j and R_j together
     NegRound(usize),
+    /// one-sided list surgery: the two lists end up with DIFFERENT lengths
+    /// (a surplus / missing point in only one of them; still decodable)
+    AppendL(u64),
+    AppendR(u64),
+    /// surplus copy of an existing point of the same list
+    DupLastR,
+    DropLastL,
+    DropLastR,
     /// scale the whole proof: every point and scalar times c
     ScaleAll(S),
 }
@@ -74,6 +82,11 @@ impl Tamper {
             Tamper::DupLastRound => "F5-dup-last",
             Tamper::SwapRounds(..) => "F5-swap-rounds",
             Tamper::AppendRound(_) => "F5-append-round",
+            Tamper::AppendL(_) => "F5-surplus-L-only",
+            Tamper::AppendR(_) => "F5-surplus-R-only",
+            Tamper::DupLastR => "F5-surplus-R-only-copy",
+            Tamper::DropLastL => "F5-missing-L-only",
+            Tamper::DropLastR => "F5-missing-R-only",
             Tamper::SwapLR(_) => "F5-swap-LR",
             Tamper::NegRound(_) => "F5-neg-round",
             Tamper::ScaleAll(_) => "F4-scale-all",
@@ -227,6 +240,24 @@ pub fn apply_fields<G: AffineRepr>(pf: &ProofFields<G>, t: &Tamper) -> Option<Pr
             o.l.push(G::rand(&mut r));
             o.r.push(G::rand(&mut r));
         }
+        Tamper::AppendL(seed) => {
+            let mut r = rng_from_u64(*seed, "tamper-round");
+            o.l.push(G::rand(&mut r));
+        }
+        Tamper::AppendR(seed) => {
+            let mut r = rng_from_u64(*seed, "tamper-round");
+            o.r.push(G::rand(&mut r));
+        }
+        Tamper::DupLastR => {
+            let p = match o.r.last() { Some(p) => *p, None => return None };
+            o.r.push(p);
+        }
+        Tamper::DropLastL => {
+            o.l.pop()?;
+        }
+        Tamper::DropLastR => {
+            o.r.pop()?;
+        }
         Tamper::SwapLR(j) => {
             if *j >= o.l.len() {
                 return None;
@@ -327,6 +358,11 @@ pub fn catalogue(k: usize, rng: &mut Rng) -> Vec<Tamper> {
     v.push(Tamper::DropFirstRound);
     v.push(Tamper::DupLastRound);
     v.push(Tamper::AppendRound(rng.next_u64()));
+    v.push(Tamper::AppendL(rng.next_u64()));
+    v.push(Tamper::AppendR(rng.next_u64()));
+    v.push(Tamper::DupLastR);
+    v.push(Tamper::DropLastL);
+    v.push(Tamper::DropLastR);
     for j in 0..k {
         v.push(Tamper::SwapLR(j));
         v.push(Tamper::NegRound(j));
